@@ -119,9 +119,9 @@ type regProbe struct {
 	doc      []byte
 	declares []string // profile names this document mentions
 	// reference dispatch
-	c265     *string           // CBOR: text under key 265 (nil = absent)
-	weak     bool              // the property leaves the dispatch of this document open
-	members  map[string]string // JSON: profile member -> string value ("\x00nonstring" for non-string)
+	c265    *string           // CBOR: text under key 265 (nil = absent)
+	weak    bool              // the property leaves the dispatch of this document open
+	members map[string]string // JSON: profile member -> string value ("\x00nonstring" for non-string)
 }
 
 var regP1Body, regP2Body *ClaimsDesc
@@ -250,7 +250,7 @@ func buildRegProbes(names []string) []regProbe {
 	if j := enc(d1, true); j != nil {
 		add(regProbe{name: "json/both", ser: "json", doc: jsonEdit(j, "eat-profile", quote(psatoken.Profile2Name), false),
 			declares: []string{psatoken.Profile1Name, psatoken.Profile2Name}, weak: true,
-			members:  map[string]string{"psa-profile": psatoken.Profile1Name, "eat-profile": psatoken.Profile2Name}})
+			members: map[string]string{"psa-profile": psatoken.Profile1Name, "eat-profile": psatoken.Profile2Name}})
 	}
 	d2 = *p2
 	d2.ProfClaim = sp(psatoken.Profile2Name)
